@@ -813,6 +813,55 @@ theorem lineReq_dash (t : List Char) : lineReq ('-' :: t) = none := by
       rw [hz']; rfl
     simp [hre, hasPrefix]
 
+theorem option_logical (t : List Char) (hw : WFfiller (.option t)) (rest : List Line) :
+    readLogical (('-' :: t) :: rest) [] = ('-' :: t, rest) := by
+  obtain ⟨_, h1, h2, h3, _⟩ := hw
+  have hno : '#' ∉ '-' :: t := by simp [h1]
+  have hcm : rmComment ('-' :: t) [] [] = '-' :: t := by rw [rmComment_clean _ hno]; simp
+  have he : hasEnvVar ('-' :: t) = false := hasEnvVar_none _ (by simp [h2])
+  have hl : ('-' :: t).getLast? ≠ some '\\' := by
+    intro e; have := List.mem_of_getLast? e
+    simp at this; exact h3 this
+  simpa [hcm] using readLogical_single ('-' :: t) rest (by rw [hcm]; exact he) (by rw [hcm]; exact hl)
+
+theorem pathChar_cases (c : Char) (h : pathChar c = true) : nameChar c = true ∨ c = '/' := by
+  unfold pathChar at h; unfold nameChar
+  simp only [Bool.or_eq_true, decide_eq_true_eq] at h ⊢
+  rcases h with ((h | h) | h) | h
+  · exact Or.inl (Or.inl (Or.inl h))
+  · exact Or.inl (Or.inl (Or.inr h))
+  · exact Or.inr h
+  · exact Or.inl (Or.inr h)
+
+theorem pathChar_not_special (c : Char) (h : pathChar c = true) : c ∉ special := by
+  rcases pathChar_cases c h with h | h
+  · exact (nameChar_not_special c h).1
+  · subst h; decide
+
+/-- an include line is, for the single-file parser, an option line -/
+theorem include_option (sp t : List Char) (hw : WFfiller (.incl sp t)) : WFfiller (.option ('r' :: (sp ++ t))) := by
+  obtain ⟨hs, _, ht, _, hl⟩ := hw
+  have hmem : ∀ x, x ∈ 'r' :: (sp ++ t) → x = 'r' ∨ x = ' ' ∨ x = '\t' ∨ pathChar x = true := by
+    intro x hx
+    rcases List.mem_cons.mp hx with rfl | hx
+    · exact Or.inl rfl
+    · rcases List.mem_append.mp hx with hx | hx
+      · rcases hs x hx with e | e
+        · exact Or.inr (Or.inl e)
+        · exact Or.inr (Or.inr (Or.inl e))
+      · exact Or.inr (Or.inr (Or.inr (List.all_eq_true.mp ht x hx)))
+  have hnot : ∀ y : Char, y ∈ special → y ≠ ' ' → y ≠ '\t' → y ∉ 'r' :: (sp ++ t) := by
+    intro y hy h1 h2 hm
+    rcases hmem y hm with e | e | e | e
+    · subst e; revert hy; decide
+    · exact h1 e
+    · exact h2 e
+    · exact pathChar_not_special y e hy
+  refine ⟨⟨hnot '\n' (by decide) (by decide) (by decide), hnot '\r' (by decide) (by decide) (by decide)⟩,
+    hnot '#' (by decide) (by decide) (by decide), hnot '$' (by decide) (by decide) (by decide),
+    hnot '\\' (by decide) (by decide) (by decide), ?_⟩
+  simp only [List.length_cons, List.length_append]; omega
+
 theorem filler_logical (f : Filler) (hw : WFfiller f) (rest : List Line) :
     ∃ g, readLogical (fillerLine f :: rest) [] = (g, rest) ∧ lineReq g = none := by
   cases f with
@@ -833,16 +882,8 @@ theorem filler_logical (f : Filler) (hw : WFfiller f) (rest : List Line) :
       | cons a b => rw [rmComment_ws (a :: b) t (spTab_isS _ hs) (by simp)]; rfl
     refine ⟨[], ?_, lineReq_nil⟩
     simpa [fillerLine, hcm] using readLogical_single (ws ++ '#' :: t) rest (by rw [hcm]; rfl) (by rw [hcm]; simp)
-  | option t =>
-    obtain ⟨_, h1, h2, h3, _⟩ := hw
-    have hno : '#' ∉ '-' :: t := by simp [h1]
-    have hcm : rmComment ('-' :: t) [] [] = '-' :: t := by rw [rmComment_clean _ hno]; simp
-    refine ⟨'-' :: t, ?_, lineReq_dash t⟩
-    have he : hasEnvVar ('-' :: t) = false := hasEnvVar_none _ (by simp [h2])
-    have hl : ('-' :: t).getLast? ≠ some '\\' := by
-      intro e; have := List.mem_of_getLast? e
-      simp at this; exact h3 this
-    simpa [fillerLine, hcm] using readLogical_single ('-' :: t) rest (by rw [hcm]; exact he) (by rw [hcm]; exact hl)
+  | option t => exact ⟨'-' :: t, option_logical t hw rest, lineReq_dash t⟩
+  | incl sp t => exact ⟨'-' :: 'r' :: (sp ++ t), option_logical _ (include_option sp t hw) rest, lineReq_dash _⟩
 
 /-! ### the loop over a rendered file -/
 
@@ -953,6 +994,10 @@ theorem fillerLine_clean (f : Filler) (h : WFfiller f) : cleanLine (fillerLine f
     obtain ⟨ht, _, _, _, hl⟩ := h
     have := Gradle.okText_cons '-' t (by decide) ht
     exact ⟨this.1, this.2, by simp only [fillerLine, List.length_cons]; omega⟩
+  | incl sp t =>
+    obtain ⟨ht, _, _, _, hl⟩ := include_option sp t h
+    have := Gradle.okText_cons '-' _ (by decide) ht
+    exact ⟨this.1, this.2, by simp only [fillerLine, List.length_cons] at hl ⊢; omega⟩
 
 theorem bodyLines_clean (before : Nat → List Filler) : ∀ (rs : List GRec) (i : Nat), WF rs →
     (∀ j, i ≤ j → j < i + rs.length → ∀ f ∈ before j, WFfiller f) →
